@@ -281,12 +281,14 @@ class time_limit:
         def handler(signum, frame):
             raise TimeLimit('time limit %ds' % self.seconds)
         self.old = signal.signal(signal.SIGALRM, handler)
-        signal.alarm(self.seconds)
+        # re-arming: Lcapy and SymPy contain bare `except:` clauses that swallow the first TimeLimit and carry on;
+        # the timer keeps firing every 2 s after the limit until the block is left
+        signal.setitimer(signal.ITIMER_REAL, max(1, self.seconds), 2.0)
         return self
 
     def __exit__(self, *a):
         import signal
-        signal.alarm(0)
+        signal.setitimer(signal.ITIMER_REAL, 0, 0)
         signal.signal(signal.SIGALRM, self.old)
         return False
 
